@@ -8,6 +8,7 @@ mod harness;
 mod net;
 mod props;
 mod refmodel;
+mod scen;
 mod simio;
 mod sys;
 
@@ -71,6 +72,19 @@ fn main() {
         eprintln!("usage: bitasim run|replay|list ...");
         std::process::exit(2);
     }
+    unsafe {
+        // every run executes on a fresh thread; keep all allocations in the one main arena and
+        // never hand memory back to the kernel, or each run pays ~20k page faults for the
+        // 1 MiB chunker / file buffers
+        libc::mallopt(libc::M_ARENA_MAX, 1);
+        libc::mallopt(libc::M_MMAP_THRESHOLD, 1 << 30);
+        libc::mallopt(libc::M_TRIM_THRESHOLD, 1 << 30);
+        libc::mallopt(libc::M_TOP_PAD, 64 << 20);
+    }
+    // warm up process-global caches (num_cpus reads /proc and cgroup files once per process,
+    // clap and std initialise statics) so that the first run of a process executes exactly
+    // like every later one
+    let _ = num_cpus_warmup();
     harness::install_panic_hook();
     harness::install_logger();
     match args[1].as_str() {
@@ -141,7 +155,17 @@ fn cmd_run(args: &[String]) {
         }
         let want_sample = samples.len() < n_samples;
         let tape = Tape::search(run_seed(seed, &prop, index));
-        let r = run_one(&prop, f, tier, &sandbox, tape, false, want_sample);
+        let dump = std::env::var("BITASIM_DUMP").ok().and_then(|v| v.parse::<u64>().ok()) == Some(index);
+        let t_run = std::time::Instant::now();
+        let r = run_one(&prop, f, tier, &sandbox, tape, dump, want_sample);
+        if std::env::var("BITASIM_SLOW").is_ok() && t_run.elapsed().as_millis() > 200 {
+            eprintln!("SLOW index {} {} ms steps {} tasks {}", index, t_run.elapsed().as_millis(), r.steps, r.tasks_run);
+        }
+        if dump {
+            for e in &r.events {
+                eprintln!("{}", e);
+            }
+        }
         runs += 1;
         steps += r.steps;
         sim_ns += r.sim_time_ns as u128;
@@ -257,4 +281,15 @@ fn cmd_replay(args: &[String]) {
         v["events"] = json!(r.events);
     }
     println!("{}", v);
+}
+
+fn num_cpus_warmup() -> usize {
+    use std::io::Write;
+    let _ = std::io::stdout().flush();
+    let _ = bita::cli::parse_opts(["bita", "info", "/nonexistent/warmup.cba"]);
+    let _ = bita::cli::parse_opts(["bita", "clone", "--seed", "-", "http://warm.up/a.cba", "out"]);
+    let _ = bita::cli::parse_opts(["bita", "compress", "-i", "x", "y"]);
+    let _ = std::fs::metadata("/");
+    let _ = std::collections::HashMap::<u8, u8>::new();
+    0
 }
